@@ -84,10 +84,18 @@ namespace occa {
       scope.props["defines"][startName] = 0;
     }
 
-    if (range.step != 1 && range.step != -1) {
-      scope.add(stepName, range.step);
+    // The loop counts down with [-=] when the step is negative:
+    // the update takes the magnitude of the step
+    const dim_t stepSize = (
+      range.step > 0
+      ? range.step
+      : -range.step
+    );
+
+    if (stepSize != 1) {
+      scope.add(stepName, stepSize);
     } else {
-      scope.props["defines"][stepName] = range.step;
+      scope.props["defines"][stepName] = 1;
     }
 
     scope.add(endName, range.end);
